@@ -404,6 +404,9 @@ def monitor(c, tr):
         if k == 97:
             return "trace garbled (process died)"
         if k == 90:
+            if a and a[0] == 31:
+                return ("the engine rejected a repeated SSL_write_ex: 'bad write retry' — the library retried a pending TLS write with a moved buffer (or fewer bytes) "
+                        "without SSL_MODE_ACCEPT_MOVING_WRITE_BUFFER; the send fails although nothing is wrong with the connection (fd %d)" % a[1])
             if a and a[0] == 30:
                 return "bytes that did not come from the TLS engine were written to the TLS connection (cleartext on the wire), fd %d" % a[1]
             return "anomaly %s" % a
@@ -505,7 +508,8 @@ def distribution(cases):
 
 
 def project(tr):
-    return project_async(tr) + [(c, a) for c, a in tr if c in (40, 41, 42, 2)]
+    # API results with the complete exception code (the TLS layer's error codes are part of what is compared)
+    return project_async(tr) + [(c, a) for c, a in tr if c in (40, 41, 42, 2)] + [(c, a) for c, a in tr if c == 20 and a[1] == 0]
 
 
 def real_openssl_stage(rep, tier, seed):
